@@ -90,7 +90,7 @@ func init() {
 				}
 				covered, bad, cmps := sameFieldComparisons(f)
 				helperCalls := map[ssa.Value]bool{}
-				for _, h := range es.helpers {
+				for _, h := range equalityHelpers(c.P, f, es.helpers) {
 					hf := c.P.Func(h)
 					if hf == nil {
 						c.AnchorLost(h)
@@ -765,7 +765,7 @@ func init() {
 				}
 				_, _, cmps := sameFieldComparisons(f)
 				helperCover := map[ssa.Value]map[string]bool{}
-				for _, h := range es.helpers {
+				for _, h := range equalityHelpers(c.P, f, es.helpers) {
 					hf := c.P.Func(h)
 					if hf == nil {
 						c.AnchorLost(h)
@@ -840,4 +840,32 @@ func init() {
 			}
 		},
 	})
+}
+
+// equalityHelpers: the frozen helper list of an equality function plus every new helper (not in the reference tree) it
+// calls with the same two rules (receiver and parameter, in either order).
+func equalityHelpers(P *Program, f *ssa.Function, frozen []string) []string {
+	out := append([]string{}, frozen...)
+	have := map[string]bool{}
+	for _, h := range frozen {
+		have[h] = true
+	}
+	if len(f.Params) < 2 {
+		return out
+	}
+	for _, ci := range callsIn(f) {
+		cal := ci.Common().StaticCallee()
+		if !isNewHelper(cal) || len(ci.Common().Args) != 2 {
+			continue
+		}
+		a0, a1 := resolve(ci.Common().Args[0]), resolve(ci.Common().Args[1])
+		if (a0 == ssa.Value(f.Params[0]) && a1 == ssa.Value(f.Params[1])) || (a0 == ssa.Value(f.Params[1]) && a1 == ssa.Value(f.Params[0])) {
+			k := fnKey(cal)
+			if !have[k] {
+				have[k] = true
+				out = append(out, k)
+			}
+		}
+	}
+	return out
 }
